@@ -200,13 +200,38 @@ def namekey(ctx, rn, fam):
         so = origin(rn, t['args'][0])
         paths['def' if 'name' in so.fields else 'ref'] = (bb, t)
     ctx.ob('NAMEKEY', 'both-paths-found', set(paths) == {'def', 'ref'}, short_loc(rn.span), 'paths: %s' % sorted(paths), nontrivial=False)
-    filt = [(bb, t) for bb, t in rn.calls() if cname(t).endswith('Option::<T>::filter')]
+    # (the filter may sit in a closure handed to a combinator: `rsplit_once('.').map(|(ns, name)| NameKey { namespace:
+    # Some(ns).filter(..), name })` - then what it filters is judged by what that combinator is applied to)
+    filt = [(b_, bb, t) for b_, bb, t in calls_in(rn, rn.live_blocks(), rn.facts) if cname(t).endswith('Option::<T>::filter')]
+
+    def applied_to(cb):
+        """origins of the receivers of the calls in rn that are handed the closure cb"""
+        out = []
+        for bb2, t2 in rn.calls():
+            if rn.is_cleanup(bb2) or len(t2.get('args', [])) < 2:
+                continue
+            if any(a[0] == 'closure' and a[1] == cb.id for x in t2['args'][1:] for a in origin(rn, x).atoms):
+                out.append((origin(rn, t2['args'][0]), bb2))
+        return out
 
     def empty_filter_on(opnd_pred):
         n = 0
-        for bb, t in filt:
-            a0 = origin(rn, t['args'][0])
-            co = origin(rn, t['args'][1])
+        for b_, bb, t in filt:
+            a0 = origin(b_, t['args'][0])
+            co = origin(b_, t['args'][1])
+            if b_ is not rn:
+                if not a0.params():
+                    continue
+                recv = applied_to(b_)
+                isempty_here = False
+                for a in co.atoms:
+                    if a[0] == 'closure':
+                        cb = rn.facts.bodies.get(a[1])
+                        if cb is not None and any(call_matches(ct, ['str::<impl str>::is_empty']) for cbb, ct in cb.calls()):
+                            isempty_here = any('assign' in s and s['rv']['k'] == 'un' and s['rv']['op'] == 'Not' for cbb in cb.live_blocks() for s in cb.stmts(cbb))
+                if isempty_here:
+                    n += sum(1 for ro, rbb in recv if opnd_pred(ro, rbb))
+                continue
             isempty = False
             for a in co.atoms:
                 if a[0] == 'closure':
